@@ -177,6 +177,15 @@ def cli_histories(tier: str) -> List[History]:
             for k, hist in enumerate(tree.level(root, depth)):
                 if depth < 3 or k % 3 == 0:
                     out.append(hist)
+    # acquisitions that pay their fee in crypto (the parser turns the fee into a fee-only disposal at the same instant), as the first
+    # funds of an account and next to same-instant disposals
+    for a in (0, 1):
+        for fee in ("1/4", "1"):
+            first = (H.B(1, 2, acct=a, fee=fee), "=")
+            out.append((first,))
+            for sym in (H.S(1, acct=a), H.S(2, acct=a), H.M(1, 0, src=a, dst=2), H.M(2, 1, src=a, dst=2), H.B(1, 1, acct=a, fee="1/2")):
+                for step in ("=", "d"):
+                    out.append((first, (sym, step)))
     return out
 
 
@@ -240,6 +249,7 @@ def plan(tier: str) -> List[Dict[str, Any]]:
             {"name": "amount + epsilon", "schedules": fifo, "steps": ("=", "d"), "depth": 3, "dev": 1, "group": 1, "from_depth": 2},
             {"name": "the same epsilon on every outgoing amount (accumulating dust)", "schedules": fifo, "steps": ("=", "d"), "depth": 3, "dev": "all", "group": 1, "from_depth": 3},
             {"name": "1..4 dust disposals of 4e-11 appended to every history of depth <= 2", "schedules": fifo, "steps": ("=", "d"), "depth": 2, "dev": "dust", "group": 1},
+            {"name": "sheet order reversed", "schedules": fifo, "steps": ("=", "d"), "depth": 3, "dev": 0, "group": 1, "row_order": "reverse"},
         ]
     return [
         {"name": "3 accounts, steps = / +1h / +1d", "schedules": fifo + [((1970, "hifo"),)], "steps": STEPS, "depth": 3, "dev": 0, "group": 1},
